@@ -278,11 +278,20 @@ def mk_path_node(e, with_op=False):
                         'last_spine_operator_node': op}, None)
 
 
-def mk_full_importer(g, with_ops=False):
+def mk_operator_path_node(e):
+    """a node of the previous stage that is itself a spine operator cell (the row before was an operator record)"""
+    n = mk_path_node(e)
+    optok = e.new(SpineOperationToken, {'encoding': e.str_sym('optok.encoding', ['*^', '*', '*v']), 'category': TokenCategory.SPINE_OPERATION, 'hidden': False,
+                                        'cancelled_at_stage': None}, None)
+    n.token = optok
+    return n
+
+
+def mk_full_importer(g, with_ops=False, parents='cells'):
     """an Importer in the middle of run(): arbitrary tree, arbitrary parents of the previous and of the next stage"""
     tree = mk_tree(g)
     doc = g.new(Document, {'tree': tree, 'measure_start_tree_stages': [], 'page_bounding_boxes': {}, 'header_stage': None}, None)
-    prev = g.mlist('prev', mk_path_node_with_op if with_ops else mk_path_node)
+    prev = g.mlist('prev', mk_operator_path_node if parents == 'operators' else (mk_path_node_with_op if with_ops else mk_path_node))
     nxt = g.mlist('next', mk_path_node)
     last = mk_tree_node(g, 'pre', mk_simple_like(g, 'MetacommentToken', 'pretok'))
     hrn = None if g.choice('header_row.none', [True, False]) else g.int('header_row', 1)
